@@ -1,5 +1,6 @@
 import Driver.Util
 import GqlgenVerif.Model.Naming
+import GqlgenVerif.Model.TypeRef
 /-! Line-protocol driver for C17: the naming model on the harness's cases. Text travels as hex of UTF-8;
 the model works on code points (the harness sends ASCII, type identifiers are returned as code points
 re-encoded to UTF-8). -/
@@ -83,7 +84,113 @@ def chkEmit (items : List String) : String :=
     | some (s, n) => s!"violates:duplicate:{s}:{toHex n}"
     | none => "ok"
 
+/-! ### type references (Model/TypeRef.lean) -/
+open GqlgenVerif.TypeRef in
+partial def parseGType : List String → Option GType
+  | [] => none
+  | t :: r =>
+    let nn := (t.drop 1).take 1 == "1"
+    match t.front with
+    | 'L' => (parseGType r).map (GType.list · nn)
+    | 'N' => if r.isEmpty then some (GType.named ((t.drop 3).toString) nn) else none
+    | _ => none
+
+open GqlgenVerif.TypeRef in
+partial def parseGoT : List String → Option GoT
+  | ["b"] => some .basic | ["t"] => some .struct | ["m"] => some .map | ["i"] => some .iface
+  | ["a"] => some .array | ["c"] => some .chan
+  | "n" :: r => (parseGoT r).map .named
+  | "s" :: r => (parseGoT r).map .slice
+  | "p" :: r => (parseGoT r).map .ptr
+  | _ => none
+
+open GqlgenVerif.TypeRef in
+/-- prefix encoding `n | a<hex> | l<k>,v1,…,vk` -/
+partial def parseVal : List String → Option (Val × List String)
+  | [] => none
+  | t :: r =>
+    match t.front with
+    | 'n' => some (.null, r)
+    | 'a' => do
+      let bs ← unhex (t.drop 1).toString
+      pure (.atom (ascii bs), r)
+    | 'l' => do
+      let k ← (t.drop 1).toString.toNat?
+      let rec go (k : Nat) (r : List String) (acc : List Val) : Option (List Val × List String) :=
+        match k with
+        | 0 => some (acc.reverse, r)
+        | k + 1 => do
+          let (v, r') ← parseVal r
+          go k r' (v :: acc)
+      let (vs, r') ← go k r []
+      pure (.list vs, r')
+    | _ => none
+
+open GqlgenVerif.TypeRef in
+def encGoT : GoT → String
+  | .basic => "b" | .struct => "t" | .map => "m" | .iface => "i" | .array => "a" | .chan => "c"
+  | .named u => "n," ++ encGoT u
+  | .slice e => "s," ++ encGoT e
+  | .ptr e => "p," ++ encGoT e
+
+open GqlgenVerif.TypeRef in
+def encGType : GType → String
+  | .named t nn => s!"N{if nn then 1 else 0}:{t}"
+  | .list e nn => s!"L{if nn then 1 else 0}," ++ encGType e
+
+def jsonStr (s : String) : String :=
+  "\"" ++ String.join (s.toList.map fun c => if c == '"' then "\\\"" else if c == '\\' then "\\\\" else c.toString) ++ "\""
+
+open GqlgenVerif.TypeRef in
+partial def showOut : Out → String
+  | .null => "null"
+  | .leaf tag text => jsonStr (if tag == "-" then text else tag ++ "|" ++ text)
+  | .arr l => "[" ++ ",".intercalate (l.map showOut) ++ "]"
+  | .fail w => "FAIL:" ++ w
+
+open GqlgenVerif.TypeRef in
+def showChain (go : GoT) (g : GType) : String :=
+  let b (x : Bool) := if x then "1" else "0"
+  let (steps, panicked) := processType go g
+  let ss := steps.map fun (t, q) =>
+    b (isSlice q t) ++ b t.isPtrToSlice ++ b t.isPtrToPtr ++ b t.isPtrToIntf ++ b t.isNilable ++ ":" ++ encGoT t ++ ":" ++ encGType q
+  ";".intercalate (if panicked then ss ++ ["PANIC"] else ss)
+
+open GqlgenVerif.TypeRef in
+def typeRefStep : List String → Option String
+  | ["tref", mode, om, g, t] => do
+    let g ← parseGType (g.splitOn ",")
+    let t ← parseGoT (t.splitOn ",")
+    let go := if mode == "cm" then copyModifiers (om == "1") g t else t
+    pure (showChain go g)
+  -- Spec on the chain the IMPLEMENTATION reported: no named GraphQL type is a slice reference, no nil GQL
+  | ["chktref", chain] =>
+    let steps := chain.splitOn ";"
+    if steps.any (fun st => st == "PANIC" || st == "NILREF") then some "violates:generator-panics-on-nil-gql"
+    else if steps.any (fun st => match st.splitOn ":" with
+        | fl :: _ :: q :: _ => fl.front == '1' && q.front == 'N'
+        | _ => true) then some "violates:named-type-is-slice"
+    else some "ok"
+  | ["spec", g, v] => do
+    let g ← parseGType (g.splitOn ",")
+    let (v, _) ← parseVal (v.splitOn ",")
+    pure (if fits g v then showOut (spec g v) else "UNFIT")
+  | ["echo", om, g, t, v] => do
+    let g ← parseGType (g.splitOn ",")
+    let t ← parseGoT (t.splitOn ",")
+    let (v, _) ← parseVal (v.splitOn ",")
+    let go := copyModifiers (om == "1") g t
+    pure (if (processType go g).2 then "FAIL:generator panics (nil GQL)" else showOut (echo go g v))
+  | ["mout", om, g, t, v] => do
+    let g ← parseGType (g.splitOn ",")
+    let t ← parseGoT (t.splitOn ",")
+    let (v, _) ← parseVal (v.splitOn ",")
+    let go := copyModifiers (om == "1") g t
+    pure (if (processType go g).2 then "FAIL:generator panics (nil GQL)" else showOut (marshal go g (goValOf g v)))
+  | _ => none
+
 def step (line : String) : String :=
+  if let some r := typeRefStep (line.splitOn " ") then r else
   match line.splitOn " " with
   | ["togo", h] => match ofHex h with | some n => toHex (toGo n) | none => "bad-op"
   | ["priv", h] => match ofHex h with | some n => toHex (toGoPrivate n) | none => "bad-op"
